@@ -36,6 +36,20 @@ Cells:
   fnattr     an attribute set on a function object
   environ    os.environ[...] written by the package
   stream     sys.stdout / sys.stderr rebound by the package (declared benign: output is not a result)
+  logging    ONE cell `logging:level` for the configuration of the process-wide logging tree (levels of the root and of
+             every named logger, `disabled` flags, `logging.disable`, handler levels / handler and filter lists).  WRITTEN by
+             a call of setLevel / logging.disable / basicConfig / dictConfig / fileConfig / addHandler / removeHandler /
+             addFilter / removeFilter / setLoggerClass through ANY receiver, and by a store to `.level` / `.disabled` /
+             `.propagate` / `.handlers` / `.filters` (on the unchanged tree: cli.Config.activate_logger, i.e. `-v`, which every
+             command reaches through cli.execute -- nothing ever resets it).  READ by isEnabledFor / getEffectiveLevel /
+             hasHandlers calls and by loads of `.level` / `.disabled` / `.propagate` / `.handlers` / `.filters` /
+             `.manager.disable`.  What the logging calls PRINT is not a result, so a read is benign in exactly one shape: it
+             stands in the test of an `if` whose test performs no other call and whose body and else-branch consist ONLY of
+             discarded logging calls -- expression statements `<logger>.debug|info|warning|error|critical|exception|log(..)`
+             on a module-level `logging.getLogger` name, the logging module, or a local bound to getLogger(..), with
+             arguments that call nothing but a few builtins.  Anything else under the guard (an assignment, a counter
+             update, a return, a call of a package function such as log_msg or a hook) makes the read FLOW, as does a read
+             anywhere outside an `if` test (returned, stored, compared in a while/ternary/assert ...).
 A read of a cell is BENIGN when the value is only called with its result discarded
 (`self.cb(h)`), possibly under a condition that mentions nothing but that cell
 (`if self._hook and ...: self._hook(msg)`).  A tainted function whose return value is
@@ -88,6 +102,19 @@ READONLY_METHODS = {
     "ArgumentParser": {"parse_args", "parse_known_args", "parse_intermixed_args", "format_help", "format_usage", "print_help",
                        "print_usage", "error", "exit"},
 }
+
+
+# the configuration of the logging tree: one cell
+LOG_CELL = "logging:level"
+LOG_WRITE_CALLS = {"setLevel", "disable", "basicConfig", "dictConfig", "fileConfig", "addHandler", "removeHandler", "addFilter",
+                   "removeFilter", "setLoggerClass", "setLogRecordFactory", "captureWarnings"}
+LOG_READ_CALLS = {"isEnabledFor", "getEffectiveLevel", "hasHandlers"}
+LOG_STATE_ATTRS = {"level", "disabled", "propagate", "handlers", "filters"}
+LOG_METHODS = {"debug", "info", "warning", "warn", "error", "critical", "exception", "log", "fatal"}
+# builtins a discarded logging call may apply to its arguments without the guarded statement counting as "something else"
+LOG_ARG_BUILTINS = {"str", "repr", "len", "int", "float", "bool", "format", "round", "type", "sorted", "list", "tuple", "hex",
+                    "abs", "min", "max", "sum"}
+LOG_ARG_METHODS = {"format", "join", "hex", "decode", "encode", "strip", "upper", "lower", "title"}
 
 
 def is_mutable_value(v):
@@ -168,6 +195,7 @@ class StateAnalysis:
         self.writes = {}         # fn qual -> set(cell)
         self.flows = {}          # fn qual -> set(cell)  (direct reads that may flow)
         self.benign_reads = {}   # fn qual -> set(cell)
+        self.mutates = set()     # fn quals that store to attributes / items or call a mutator method
         self.scan()
 
     def cell(self, name, kind):
@@ -325,9 +353,142 @@ class StateAnalysis:
                         key = t.slice.value if isinstance(t.slice, ast.Constant) else "*"
                         self.w(q, self.cell(f"environ:{key}", "environ"))
         self.module_globals, self.class_attrs, self.object_globals = module_globals, class_attrs, object_globals
+        # module-level names bound to logging.getLogger(..): the receivers of logging calls
+        self.logger_names = {}
+        for fn in sorted(os.listdir(pdir)):
+            if fn.endswith(".py"):
+                tree = ast.parse(open(os.path.join(pdir, fn), encoding="utf-8").read())
+                names, other = set(), set()
+                for node in scope_statements(tree.body):
+                    bd = bindings(node)
+                    if bd is None:
+                        continue
+                    for t in bd[0]:
+                        if isinstance(t, ast.Name):
+                            (names if isinstance(bd[1], ast.Call) and call_name(bd[1]) == "getLogger" else other).add(t.id)
+                self.logger_names[fn[:-3]] = names - other
         # pass 2: reads and mutations
         for q, f in g.fns.items():
             self.scan_function(q, f)
+            self.scan_logging(q, f)
+
+    # ------------------------------------------------------------------ the logging tree (cell logging:level)
+    def is_logging_module(self, f, e, shadowed):
+        return isinstance(e, ast.Name) and e.id not in shadowed and self.g.mod_imports[f.module].get(e.id) == ("module", "logging")
+
+    def is_logger_ref(self, f, e, local_loggers, shadowed):
+        if isinstance(e, ast.Name):
+            if e.id in local_loggers:
+                return True
+            if e.id in shadowed:
+                return False
+            if e.id in self.logger_names.get(f.module, ()) or self.is_logging_module(f, e, shadowed):
+                return True
+            imp = self.g.mod_imports[f.module].get(e.id)
+            return bool(imp and imp[0] == "pkgobj" and imp[2] in self.logger_names.get(imp[1], ()))
+        if isinstance(e, ast.Call):
+            return call_name(e) == "getLogger"
+        if isinstance(e, ast.Attribute) and e.attr == "root":
+            return self.is_logging_module(f, e.value, shadowed)
+        return False
+
+    @staticmethod
+    def log_args_ok(call):
+        for a in list(call.args) + [k.value for k in call.keywords]:
+            for x in ast.walk(a):
+                if isinstance(x, (ast.NamedExpr, ast.Yield, ast.YieldFrom, ast.Await, ast.Lambda)):
+                    return False
+                if isinstance(x, ast.Call):
+                    fn = x.func
+                    if isinstance(fn, ast.Name) and fn.id in LOG_ARG_BUILTINS:
+                        continue
+                    if isinstance(fn, ast.Attribute) and fn.attr in LOG_ARG_METHODS:
+                        continue
+                    return False
+        return True
+
+    def scan_logging(self, q, f):
+        node = f.node
+        stores = {}
+        for n in ast.walk(node):
+            if isinstance(n, ast.Name) and isinstance(n.ctx, (ast.Store, ast.Del)):
+                stores.setdefault(n.id, 0)
+                stores[n.id] += 1
+        args = getattr(node, "args", None)
+        params = set()
+        if args is not None:
+            params = {a.arg for a in list(args.posonlyargs) + list(args.args) + list(args.kwonlyargs) + [args.vararg, args.kwarg]
+                      if a is not None}
+        declared_global = {nm for n in ast.walk(node) if isinstance(n, (ast.Global, ast.Nonlocal)) for nm in n.names}
+        shadowed = (set(stores) | params) - declared_global if f.name != "<module>" else set()
+        # locals bound ONLY by `x = <..>.getLogger(..)`
+        from_getlogger = {}
+        for n in ast.walk(node):
+            if isinstance(n, ast.Assign) and isinstance(n.value, ast.Call) and call_name(n.value) == "getLogger":
+                for t in n.targets:
+                    if isinstance(t, ast.Name):
+                        from_getlogger[t.id] = from_getlogger.get(t.id, 0) + 1
+        local_loggers = {k for k, c in from_getlogger.items() if stores.get(k) == c and k not in params}
+
+        def is_read(n):
+            if isinstance(n, ast.Call) and isinstance(n.func, ast.Attribute) and n.func.attr in LOG_READ_CALLS:
+                return True
+            if isinstance(n, ast.Attribute) and isinstance(n.ctx, ast.Load):
+                if n.attr in LOG_STATE_ATTRS:
+                    return True
+                if n.attr == "disable" and isinstance(n.value, ast.Attribute) and n.value.attr == "manager":
+                    return True
+            if isinstance(n, ast.Call) and isinstance(n.func, ast.Name) and n.func.id in ("getattr", "hasattr") and len(n.args) >= 2:
+                nm = n.args[1]
+                if isinstance(nm, ast.Constant) and nm.value in LOG_STATE_ATTRS | LOG_READ_CALLS:
+                    return True
+            return False
+
+        def logging_stmt(st):
+            if isinstance(st, ast.Pass):
+                return True
+            return isinstance(st, ast.Expr) and isinstance(st.value, ast.Call) and isinstance(st.value.func, ast.Attribute) \
+                and st.value.func.attr in LOG_METHODS and self.is_logger_ref(f, st.value.func.value, local_loggers, shadowed) \
+                and self.log_args_ok(st.value)
+
+        def test_ok(t):
+            for x in ast.walk(t):
+                if isinstance(x, (ast.NamedExpr, ast.Yield, ast.YieldFrom, ast.Await, ast.Lambda)):
+                    return False
+                if isinstance(x, ast.Call) and not (isinstance(x.func, ast.Attribute) and x.func.attr in LOG_READ_CALLS):
+                    return False
+            return True
+
+        benign = set()
+        for n in ast.walk(node):
+            if isinstance(n, ast.If) and test_ok(n.test) and all(logging_stmt(s) for s in list(n.body) + list(n.orelse)):
+                for x in ast.walk(n.test):
+                    if is_read(x):
+                        benign.add(id(x))
+        called = {id(n.func) for n in ast.walk(node) if isinstance(n, ast.Call)}
+        for n in ast.walk(node):
+            # writes
+            if isinstance(n, ast.Call):
+                nm = n.func.attr if isinstance(n.func, ast.Attribute) else (n.func.id if isinstance(n.func, ast.Name) else None)
+                if nm in LOG_WRITE_CALLS:
+                    self.w(q, self.cell(LOG_CELL, "logging"))
+                if isinstance(n.func, ast.Attribute) and n.func.attr in MUTATORS and isinstance(n.func.value, ast.Attribute) \
+                        and n.func.value.attr in LOG_STATE_ATTRS:
+                    self.w(q, self.cell(LOG_CELL, "logging"))
+                if isinstance(n.func, ast.Name) and n.func.id in ("setattr", "delattr") and len(n.args) >= 2 \
+                        and isinstance(n.args[1], ast.Constant) and n.args[1].value in LOG_STATE_ATTRS:
+                    self.w(q, self.cell(LOG_CELL, "logging"))
+            if isinstance(n, ast.Attribute) and isinstance(n.ctx, (ast.Store, ast.Del)) and n.attr in LOG_STATE_ATTRS:
+                self.w(q, self.cell(LOG_CELL, "logging"))
+            # reads
+            if is_read(n):
+                if isinstance(n, ast.Attribute) and id(n) in called and n.attr not in LOG_STATE_ATTRS:
+                    continue
+                c = self.cell(LOG_CELL, "logging")
+                if id(n) in benign:
+                    self.benign_reads.setdefault(q, set()).add(c)
+                else:
+                    self.fl(q, c)
 
     def scan_function(self, q, f):
         node = f.node
@@ -339,6 +500,13 @@ class StateAnalysis:
                     if isinstance(t, ast.Name):
                         local_names.add(t.id)
         declared_global = {nm for n in ast.walk(node) if isinstance(n, ast.Global) for nm in n.names}
+        # a function that changes an object it did not create locally (self.counter += 1, self.seen.add(x), d[k] = v) has an
+        # effect of its own even when its return value is discarded: it is not `pure`
+        for n in ast.walk(node):
+            if (isinstance(n, (ast.Attribute, ast.Subscript)) and isinstance(n.ctx, (ast.Store, ast.Del))) or \
+                    (isinstance(n, ast.Call) and isinstance(n.func, ast.Attribute) and n.func.attr in MUTATORS):
+                self.mutates.add(q)
+                break
         benign_nodes = set()
         # benign shapes for class attribute cells: Expr(Call(func=self.X)) and guards that only mention X
         for n in ast.walk(node):
@@ -427,14 +595,14 @@ class StateAnalysis:
 
     # ------------------------------------------------------------------ op summaries
     def pure(self, q, memo):
-        """no cell writes, no non-read effects, nothing unknown in the reach of q"""
+        """no cell writes, no stores to attributes/items, no mutator calls, no non-read effects, nothing unknown in the reach of q"""
         if q in memo:
             return memo[q]
         memo[q] = True
         ok = True
         for r in self.g.reach([q]):
             f = self.g.fns[r]
-            if self.writes.get(r) or f.unknown or any(k != "Read" for k, _ in f.effects):
+            if self.writes.get(r) or r in self.mutates or f.unknown or any(k != "Read" for k, _ in f.effects):
                 ok = False
                 break
         memo[q] = ok
